@@ -87,6 +87,10 @@ func main() {
 	name, mode := os.Args[1], os.Args[2]
 	// go-diameter prints recovered handler panics through the standard logger
 	log.SetOutput(io.Discard)
+	if name == "config-child" {
+		configChild(os.Args[2])
+		return
+	}
 	if name == "dump-tables" {
 		dumpTables(os.Args[2])
 		return
